@@ -154,7 +154,7 @@ def run(ctx):
                                            "why": why, "before": st["before"], "op": st["op"],
                                            "impl_after": st.get("after"), "impl_abort": st["abort"],
                                            "model": st.get("model"), "mismatches": len(mism)})
-        if not violations:
+        if True:
             broken.append({"signature": {"kind": "correspondence"}, "replay": path, "nfi": True, "what": why})
     cov = {
         "obligations": 0, "discharged": 0,   # filled by check.py from the audited theorems
